@@ -4,10 +4,90 @@ import json, subprocess
 ALL = ["C%02d" % i for i in range(1, 18)]
 CHECKS = {
  "C01": dict(
-   text="Bounded-exhaustive differential model checking on the real code: every rule of the bounded universe x 16 switch sets x every hash iteration order of every optimiser-local map (stateless DFS over cfg-guarded choice points) x the full product of per-field document alphabets; optimised verdict must equal unoptimised verdict, optimise/matches must not panic. Violations are localised to pass@site:kind signatures so that recorded defects do not mask new ones.",
-   note="Bounds: universe sizes in evidence; trusted: regex, aho-corasick, serde_yaml; PermMap over-approximates std HashMap orders; replica of Rule::optimise is conformance-checked against Rule::optimise on every rule x switch set.",
-   technique="stateless explicit-state exploration of hash-order choice points + exhaustive input enumeration (differential oracle)",
+   text="Bounded-exhaustive differential model checking on the real code: every rule of the bounded universe x 16 switch sets x every iteration order of every hooked optimiser-local map (stateless DFS over cfg-guarded choice points) x the full product of per-field document alphabets; the optimised verdict must equal the unoptimised one and optimise/matches must not panic. Violations are localised to pass@site:kind signatures so that the recorded defects do not mask new ones.",
+   note="Bounds: universe sizes in the evidence; trusted: regex, aho-corasick, serde_yaml; PermMap over-approximates std HashMap orders; the pass-by-pass replica of Rule::optimise is conformance-checked against Rule::optimise on every rule x switch set.",
+   technique="stateless explicit-state exploration of hash-order choice points + exhaustive input enumeration, differential oracle",
    ref="5/C01"),
+ "C02": dict(
+   text="Every loadable rule of the bounded universe x the full document product is one model trace: a set-valued reference interpreter of the rule language (own condition parser, pattern parser, path resolver and regex matcher, working from the YAML text) predicts the admissible three-valued results and the engine must refine it; all traces are replayed on the implementation.",
+   note="Where the documentation is silent the reference is multi-valued (DESIGN 4.2); serde_yaml parses the text for both sides; the reference itself is trusted (kept boring, exercised on 10^6..10^8 cases).",
+   technique="bounded-exhaustive enumeration of (rule, document) against a reference model; every model trace replayed on the implementation",
+   ref="5/C02"),
+ "C03": dict(
+   text="All token strings up to a length bound as conditions; every loaded rule (and the shared universe) x 16 switch sets x an adversarial Document whose every find() answer is an explorer choice point over a value-kind alphabet, explored exhaustively up to a deviation bound; oracle: no panic in optimise/matches/validate and the structural invariant (operands of and/or/not are predicates, identifiers exist).",
+   note="Answers of nested objects are fixed trees; deviation bound 2 (quick) / 3 (thorough); depth > 64 out of scope.",
+   technique="deviation-bounded stateless exploration of environment (Document) answers + exhaustive enumeration of condition token strings",
+   ref="5/C03"),
+ "C04": dict(
+   text="Every string up to a length bound over adversarial alphabets through each textual layer on its own (pattern parser, tokeniser, mapping-key parser) and through the loader; every node position of a skeleton rule x a 42-shape YAML alphabet (pairs of positions in thorough); depth-64 cases in child processes; oracle: returns Ok or Err, no panic/abort, returns within 10 s (watchdog).",
+   note="serde_yaml itself trusted; nesting beyond 64 out of scope; longer strings outside the bound not covered.",
+   technique="bounded-exhaustive input enumeration on the real code with panic/abort/hang oracle",
+   ref="5/C04"),
+ "C05": dict(
+   text="Every condition tree up to N leaves (all shapes x and/or x not placements x leaf kinds x keyword-prefixed names), printed bare, fully parenthesised, with each redundant parenthesis pair and with extra blanks, x all 3^k leaf assignments; each rendering must load and equal the grammar's intended tree composed from the engine's own measured and/or/not tables.",
+   note="Metamorphic: decoupled from the truth tables (C06); malformed conditions are not judged.",
+   technique="exhaustive enumeration of condition ASTs and truth assignments; metamorphic oracle against a reference recursive-descent reading",
+   ref="5/C05"),
+ "C06": dict(
+   text="The finite space of connective forms x arity 1..4 x {T,F,M}^k x thresholds 0..k+1 is enumerated completely through rule text and through hand-built expressions; every row is compared with the stated truth table (set-valued where the statement is silent).",
+   note="Operand results are produced by real predicates (field = v / w / absent); non-true results of all()/of() are not pinned.",
+   technique="complete enumeration of a finite truth-table space on the real solver",
+   ref="5/C06"),
+ "C07": dict(
+   text="All needles x all haystacks over small alphabets up to length bounds x every relation and case flag, singly and in all pairs / triples / quads of mixed members (as loaded and after optimisation), against the naive relation on &str and against the OR of the engine's own single-member verdicts.",
+   note="Regexes outside the harness's small backtracking matcher fall back to the regex crate; longer and multi-byte strings are a seeded sample.",
+   technique="bounded-exhaustive enumeration of (pattern list, haystack) against a reference model",
+   ref="5/C07"),
+ "C08": dict(
+   text="All member lists up to a length bound per member class under k / all(k) / of(k,n) and as all(X)/of(X,n) over identifiers, x scalar documents; each quantified rule is compared with the same engine on the rule written out as and/or/not over one-member identifiers, with the count of single-member verdicts and with the reference interpreter.",
+   note="Key lists under all/of on array fields are unspecified and not enumerated.",
+   technique="bounded-exhaustive enumeration with a written-out-form differential oracle",
+   ref="5/C08"),
+ "C09": dict(
+   text="operator x constant x key form / condition form x field value over the signed/unsigned 64-bit and double boundary sets is enumerated completely and compared with exact arithmetic (i128 / exact int-vs-double comparison) through the reference interpreter.",
+   note="Rounding direction of float->int casts is not pinned; random 64-bit values are a seeded sample.",
+   technique="complete enumeration of a finite boundary product against an exact-arithmetic reference",
+   ref="5/C09"),
+ "C10": dict(
+   text="All paths up to depth N x all small document trees with unique leaves x 5 representations against a reference resolver (identity of the addressed value); the same through Rule::matches; nested-mapping form vs dotted form; totality of find() on all key strings up to a length bound.",
+   note="Malformed index syntax has only a totality oracle.",
+   technique="bounded-exhaustive enumeration of (path, document) against a reference resolver",
+   ref="5/C10"),
+ "C11": dict(
+   text="Every model document (shared alphabets + 64-bit/double extremes) is rendered into each supported representation and every rule of the numeric family and the shared universe must give the same verdict on all of them; every std adapter is checked to yield the value kind with the same numeric value and signedness.",
+   note="NaN/inf documents are skipped for JSON; f32 compared after exact widening.",
+   technique="bounded-exhaustive differential enumeration across representations",
+   ref="5/C11"),
+ "C12": dict(
+   text="Four exhaustive dimensions: (1) all iteration orders of every hooked optimiser map per rule x switch set - printed tree must be unique; (2) explicit-state search over all document sequences of length 4 on one shared rule - one reachable observable state, verdicts equal a fresh rule's; (3) shuttle DFS over ALL interleavings of matches() from 2-3 threads sharing Arc<Rule> at Document::find granularity, deviation-bounded DFS for 4-16 threads; (4) digests across three processes with different environment.",
+   note="Callback granularity is justified by a source scan re-run on every check (no shared mutable state in the engine); free-running 16-thread run and process comparison are samples, labelled so.",
+   technique="explicit-state search over histories + exhaustive controlled-scheduler (shuttle DFS) exploration of interleavings + hash-order choice exploration",
+   ref="5/C12"),
+ "C13": dict(
+   text="Rules x switch sets x all pairs of example lists (length 0-2) over matching / non-matching / empty / malformed entries; validate() must be Ok(true) iff matches() accepts every positive and rejects every negative, else a Validation error naming exactly the failing examples; never a panic.",
+   note="Examples are identified in the error text by unique marker values, the message format is not pinned.",
+   technique="bounded-exhaustive enumeration of example lists with matches() as oracle",
+   ref="5/C13"),
+ "C14": dict(
+   text="Rules over a quoting-sensitive value alphabet in every value position x example shapes x {as loaded, optimised} are serialised and reloaded; the serialised view, the re-parsed tree and all verdicts must be equal, and from_str must agree with from_value.",
+   note="serde_yaml's emitter/parser pair is trusted for plain YAML values.",
+   technique="bounded-exhaustive round-trip enumeration (differential)",
+   ref="5/C14"),
+ "C15": dict(
+   text="Two real builds of one enumeration: the ignore_case build evaluates each rule as written, the default build evaluates it with i prepended to every string pattern; load outcomes and three-valued result tables over all patterns up to a length bound (alphabet contains the prefix letter itself), lists, key modifiers and ASCII documents must be identical.",
+   note="Both binaries are rebuilt from /repo's working tree by ./check C15.",
+   technique="bounded-exhaustive differential enumeration across two builds (configurations)",
+   ref="5/C15"),
+ "C16": dict(
+   text="Every rule x switch set (all distinct optimised trees) x documents on a recording document that logs every get() on the document and on nested objects: keys asked must be written in the rule, synthetic keys are never asked, and adding unaddressed fields (including the synthetic names) never changes the verdict.",
+   note="Key attribution is by segment name, not exact nesting path.",
+   technique="bounded-exhaustive exploration with an execution invariant on the recorded environment interaction",
+   ref="5/C16"),
+ "C17": dict(
+   text="Every commutative position of 2-4 operands (list members of mixed kinds, sequence rows, mapping entries, and/or operands) x ALL permutations x documents, as loaded and optimised: whether the node is true must not depend on the order.",
+   note="More than 4 operands are a seeded sample.",
+   technique="exhaustive permutation enumeration (metamorphic oracle)",
+   ref="5/C17"),
 }
 NA_REASON = "check not built yet in this phase (see DESIGN.md section 10 build order)"
 def main():
